@@ -26,9 +26,12 @@ def gen(rng, tier):
     out = []
     for i in range(n):
         kw = dict(fault=0.0, registry_rate=0.5, p_fault_ser=0.0, p_typed=0.35, p_tb=0.08, p_handoff=0.12, p_task=0.1,
-                  depth=4, file_dest=True, p_logcall=0.2)
+                  depth=4, file_dest=True, p_logcall=0.2, p_reseed=0.2)
         if tier == "thorough" and i % 3 == 0:
             kw.update(depth=7, width=5)
+        if i % 5 == 4:
+            # wide actions: hand-offs taken at positions >= 10 (multi-digit level components in the task id)
+            kw.update(depth=2, width=16, p_handoff=0.3, p_raise=0.03)
         case = progs.gen_case(rng, n_dests=1, **kw)
         # extractors that raise add traceback messages the shadow record does not predict: only field extractors here
         case["registry"] = [r for r in case["registry"] if r[1][0] == "fields"]
@@ -104,7 +107,7 @@ def impl(case):
 def model_expr(case):
     # the same orders; the model needs the number of messages: computed inside Coq from the trace
     pre = [progs.c_preop(o) for o in case.get("pre", [])]
-    prog = [progs.c_stmt(s) for s in case["prog"]]
+    prog = progs.c_stmts(case["prog"])
     return ("let cfg := %s in let pre := %s in let p := %s in "
             "let n := List.length (trace_of (fst (run_prog cfg pre p)) 1) in (n, roundtrip cfg pre p 1 (seq 0 n), "
             "roundtrip cfg pre p 1 (rev (seq 0 n)))" % (to_coq(progs.c_config(case)), to_coq(pre), to_coq(prog)))
@@ -166,7 +169,7 @@ def expected_node(case, node, exns):
     if failed:
         x = exns[rec["exc"]]
         exc_name = oracles.class_name(case, x["cls"])
-        reason = progs.SAFEFAIL if x["sr"] else "text%d" % x["text"]
+        reason = progs.SAFEFAIL if x["sr"] else progs.exn_text(x["text"])
         ext = oracles.expected_extractor(case, x["cls"])
         if ext is not None and ext[0] == "fields":
             for k, v in ext[1]:
